@@ -26,6 +26,10 @@ def generate(rng, n, tier, stats):
             if rng.random() < 0.4: a['flat'] = [float('nan') if rng.random() < 0.2 else v for v in a['flat']]
         else:
             a['flat'] = [rng.choice(range(-3, 5) if fam != 'cumprod' else [1, 2, -1, 0]) for _ in range(size)]
+        if fam in ('cumsum', 'cumprod') and rng.random() < 0.15:
+            # a boolean mask: the running count (or product) is an integer array, as NumPy gives
+            a = rand_array(rng, stats=stats, dtype='b', ndim=nd, lens=lens, attrs=rng.random() < 0.5); dtype = 'b'
+            stats['cumulative_of_bool']['yes'] += 1
         i = rng.randrange(nd); r = a['dims'][i] if rng.random() < 0.5 else i
         stats['family'][fam] += 1
         if fam in ('cumsum', 'cumprod'):
